@@ -386,6 +386,46 @@ theorem sinr_after_history_first_principles (k : Fin K) (l : Fin (S k)) (i0 : Rx
           noisePow (noiseVar (afterHistory i0 hist).noise) (filt (afterHistory i0 hist).Uk l))) :=
   sinr_first_principles _ _ k _ _ l hσ hden
 
+/-! ### index arguments and the shape of the capacity argument -/
+
+/-- **index arguments are read by value**: an index whose value is below `K` designates that user
+    whatever carries it (the model has no notion of the Python object: `int`, `np.int64`, `np.uint8`,
+    `np.intp`, 0-d array and a non-cached `int` above 256 are the same `k`), a larger value is an
+    `IndexError`; and `calc_Q` / `calc_JP_Q` leave out exactly the user with that VALUE — the receivers
+    `k`, `k'` with `k.val = k'.val` get the same interference covariance. -/
+theorem index_argument_read_by_value (k : Nat) (G : (j : Fin K) → Mat ℂ n (T j))
+    (V : (j : Fin K) → Mat ℂ (T j) (S j)) (noise : Option ℝ) :
+    (∀ h : k < K, indexArg K k = .ok ⟨k, h⟩) ∧
+    (K ≤ k → indexArg K k = .error .IndexError) ∧
+    (∀ i, indexArg K k = .ok i → i.val = k) ∧
+    (∀ a b : Fin K, a.val = b.val → chQ G V a noise = chQ G V b noise) ∧
+    (∀ a : Fin K, toM (qImpl G V a) = ∑ j ∈ Finset.univ.filter (fun j : Fin K => j.val ≠ a.val), linkCov (G j) (V j)) := by
+  refine ⟨fun h => by simp [indexArg, h], fun h => by simp [indexArg, Nat.not_lt.mpr h], ?_, ?_, ?_⟩
+  · intro i hi
+    unfold indexArg at hi
+    split at hi
+    · cases hi; rfl
+    · cases hi
+  · intro a b hab
+    rw [Fin.ext hab]
+  · intro a
+    rw [toM_qImpl]
+    refine Finset.sum_congr ?_ (fun _ _ => rfl)
+    ext j
+    simp [Fin.ext_iff]
+
+/-- **the sum capacity of an argument of any shape is ONE number, the sum over all entries**: however
+    the SINRs are arranged in rows (`K × Ns` array, column / row vector, per-user arrays of different
+    lengths, empty rows), `calc_shannon_sum_capacity` is `Σ log2(1 + x)` over every entry, and two
+    arrangements of the same entries give the same value. -/
+theorem shannon_sum_any_shape (rows rows' : List (List ℝ)) :
+    shannonSumNested rows = ((rows.map (fun r => (r.map (fun x => Real.logb 2 (1 + x))).sum)).sum) ∧
+    (rows.flatten = rows'.flatten → shannonSumNested rows = shannonSumNested rows') ∧
+    shannonSumNested [rows.flatten] = shannonSumNested rows := by
+  refine ⟨?_, fun h => by simp only [shannonSumNested, h], by simp [shannonSumNested]⟩
+  rw [shannonSumNested, shannon_sum_def, List.map_flatten, List.sum_flatten, List.map_map]
+  rfl
+
 /-! ### robustness classes, as far as they are facts about the model -/
 
 /-- **R4 refused calls leave no trace; R3 reports are values; R7 only the current inputs count.**
